@@ -51,6 +51,8 @@ def _z(x):
         return z3.RealVal("%d/%d" % (f.numerator, f.denominator))
     if z3.is_expr(x):
         return x
+    if hasattr(x, "item") and getattr(x, "shape", None) == ():
+        return _z(x.item())
     raise Unmodelled("cannot lift %r to a symbolic scalar" % (type(x),))
 
 
@@ -382,6 +384,8 @@ class VC:
 
     def check(self, name, cond, detail=None):
         """Obligation: path condition |= cond."""
+        if hasattr(cond, "item") and getattr(cond, "shape", None) == ():
+            cond = cond.item()
         if isinstance(cond, bool):
             self._record(name, "discharged" if cond else "violated", None if cond else (detail or "false on this path"),
                          None if cond else self._model_of(z3.BoolVal(True)), 0.0, "structural")
@@ -620,8 +624,10 @@ def sb_abs(x):
 
 
 def sb_isinstance(obj, cls):
+    cl = cls if isinstance(cls, tuple) else (cls,)
+    cl = tuple({sb_float: float, sb_int: int}.get(c, c) if callable(c) and not isinstance(c, type) else c for c in cl)
+    cls = cl
     if _is_sym(obj):
-        cl = cls if isinstance(cls, tuple) else (cls,)
         if isinstance(obj, SymBool):
             return bool in cl or int in cl
         if isinstance(obj, SymInt):
